@@ -456,6 +456,106 @@ func runC03(c *Checker) {
 	checkMeCase(c, wt, rt)
 	checkPreMessages(c, nhs)
 	c.floor("HSK-SIB", 20)
+	ruleSecretWhole(c)
+}
+
+// ruleSecretWhole: the pairing secret is used in full on its way into the mask: stretchPassphrase
+// hands its whole parameter to scrypt (as password and salt), NewBrontideMachine stretches exactly
+// ConnData.PassphraseEntropy() and gives the result to the handshake state, and ekeMask/ekeUnmask
+// turn the whole stretched value into the scalar. Two passphrases that differ in any bit then
+// give different masks.
+func ruleSecretWhole(c *Checker) {
+	w := c.w
+	onlyPassedOn := func(p *ssa.Parameter) (bool, string) {
+		for _, r := range *p.Referrers() {
+			switch x := r.(type) {
+			case *ssa.Call:
+				if b, ok := x.Call.Value.(*ssa.Builtin); ok && (b.Name() == "len" || b.Name() == "cap") {
+					continue
+				}
+				continue // handed to a callee as a whole value
+			case *ssa.DebugRef:
+			case *ssa.Slice:
+				return false, "the secret is sliced (" + w.canonFB(x) + "): part of it is ignored"
+			case *ssa.IndexAddr, *ssa.Index:
+				return false, "single bytes of the secret are picked"
+			case *ssa.Phi:
+				return false, "the secret is conditionally replaced"
+			case *ssa.Store, *ssa.MakeInterface:
+			}
+		}
+		return true, "used whole"
+	}
+	if sp := mboxFunc(c, "mailbox.stretchPassphrase"); sp != nil {
+		p := sp.Params[0]
+		okk, why := onlyPassedOn(p)
+		// scrypt.Key(p, p, ...)
+		okCall := false
+		for _, ci := range findCalls(sp, func(ci ssa.CallInstruction) bool {
+			sc := ci.Common().StaticCallee()
+			return sc != nil && sc.Name() == "Key" && sc.Pkg != nil && strings.HasSuffix(sc.Pkg.Pkg.Path(), "scrypt")
+		}) {
+			a := ci.Common().Args
+			if len(a) >= 2 && a[0] == ssa.Value(p) && a[1] == ssa.Value(p) {
+				okCall = true
+			}
+		}
+		c.decide(okk && okCall, "HSK-SIB", "secret|stretchPassphrase uses the whole entropy", sp.Pos(), "scrypt.Key(entropy, entropy, ...) on the unmodified parameter",
+			"stretchPassphrase does not stretch the whole passphrase entropy ("+why+"): passphrases differing only in the ignored part are accepted as equal")
+	}
+	for _, n := range []string{"mailbox.ekeMask", "mailbox.ekeUnmask"} {
+		fn := mboxFunc(c, n)
+		if fn == nil {
+			continue
+		}
+		p := fn.Params[1]
+		okk, why := onlyPassedOn(p)
+		okSet := false
+		for _, ci := range findCalls(fn, func(ci ssa.CallInstruction) bool {
+			sc := ci.Common().StaticCallee()
+			return sc != nil && sc.Name() == "SetByteSlice"
+		}) {
+			if ci.Common().Args[1] == ssa.Value(p) {
+				okSet = true
+			}
+		}
+		c.decide(okk && okSet, "HSK-SIB", "secret|"+fn.Name()+" turns the whole stretched secret into the scalar", fn.Pos(), "pw.SetByteSlice(passphraseEntropy) on the unmodified parameter",
+			fn.Name()+" does not use the whole stretched secret ("+why+")")
+	}
+	if nbm := mboxFunc(c, "mailbox.NewBrontideMachine"); nbm != nil {
+		okk := false
+		for _, ci := range findCalls(nbm, func(ci ssa.CallInstruction) bool { return calleeNameIsCI(ci, "stretchPassphrase") }) {
+			if call, ok := ci.Common().Args[0].(*ssa.Call); ok && call.Common().IsInvoke() && call.Common().Method.Name() == "PassphraseEntropy" {
+				// the stretched value reaches newHandshakeState
+				for _, h := range findCalls(nbm, func(ci ssa.CallInstruction) bool { return calleeNameIsCI(ci, "newHandshakeState") }) {
+					for _, a := range h.Common().Args {
+						for _, v := range expandValues(a) {
+							if ex, ok := v.(*ssa.Extract); ok && ex.Tuple == ssa.Value(ci.(*ssa.Call)) && ex.Index == 0 {
+								okk = true
+							}
+						}
+					}
+				}
+			}
+		}
+		c.decide(okk, "HSK-SIB", "secret|NewBrontideMachine stretches ConnData.PassphraseEntropy() and hands it to the handshake", nbm.Pos(), "stretchPassphrase(cfg.ConnData.PassphraseEntropy()) -> newHandshakeState",
+			"the handshake state does not receive the stretched passphrase entropy of the connection data")
+	}
+	// the handshake state keeps exactly what it was given
+	if nhs := mboxFunc(c, "mailbox.newHandshakeState"); nhs != nil {
+		f := w.Field("mailbox.handshakeState.passphraseEntropy")
+		okk := false
+		if f != nil {
+			for _, st := range w.Stores(f) {
+				if st.Parent() == nhs {
+					if p, ok := st.Val.(*ssa.Parameter); ok && p.Name() == "passphraseEntropy" {
+						okk = true
+					}
+				}
+			}
+		}
+		c.decide(okk, "HSK-SIB", "secret|handshakeState.passphraseEntropy = parameter", nhs.Pos(), "stored unmodified", "the handshake state does not store the passphrase entropy it was given")
+	}
 }
 
 // fieldOfValue2: load of a field through a local copy (mp.ActNum where mp is a local struct).
@@ -911,6 +1011,8 @@ func runC04(c *Checker) {
 	// ---- HSK-VER ----
 	ruleHSKVER(c, rmp)
 
+	ruleKKMinVersion(c, "HSK-VER")
+
 	// ---- KEYSEP (complementary traffic keys) ----
 	ruleKEYSEP(c)
 
@@ -1198,4 +1300,115 @@ func hskBufDesc(w *World, v ssa.Value) string {
 		return "a buffer of " + w.canonFB(ms.Len) + " bytes"
 	}
 	return w.canonFB(v)
+}
+
+// ruleKKMinVersion: the KK pattern has no third act in which the responder could re-check the
+// version, so the initiator's range check is the only validation of the act-2 version byte: for
+// KK the minimum version handed to the handshake state must be >= HandshakeVersion2 (and the
+// maximum must be checked).
+func ruleKKMinVersion(c *Checker, rule string) {
+	w := c.w
+	nbm := mboxFunc(c, "mailbox.NewBrontideMachine")
+	nhs := mboxFunc(c, "mailbox.newHandshakeState")
+	hv2 := w.Const("mailbox.HandshakeVersion2")
+	kk := w.Const("mailbox.KK")
+	if nbm == nil || nhs == nil || hv2 == nil || kk == nil {
+		c.anchorFail("NewBrontideMachine / newHandshakeState / HandshakeVersion2 / KK")
+		return
+	}
+	v2, _ := constant.Int64Val(constant.ToInt(hv2.Val()))
+	kkName := constant.StringVal(kk.Val())
+	isKK := func(f Fact) (bool, bool) { // (is a KK test, value)
+		bo, ok := f.Cond.(*ssa.BinOp)
+		if !ok || (bo.Op != token.EQL && bo.Op != token.NEQ) {
+			return false, false
+		}
+		k, ok := bo.Y.(*ssa.Const)
+		if !ok || k.Value == nil || k.Value.Kind() != constant.String || constant.StringVal(k.Value) != kkName {
+			return false, false
+		}
+		return true, f.Val == (bo.Op == token.EQL)
+	}
+	rg := newRanger(w)
+	calls := findCalls(nbm, func(ci ssa.CallInstruction) bool { return ci.Common().StaticCallee() == nhs })
+	if len(calls) != 1 {
+		c.fail(rule, "NewBrontideMachine|newHandshakeState call", nbm.Pos(), "expected exactly one call of newHandshakeState")
+		return
+	}
+	call := calls[0]
+	for idx, what := range []string{"minimum", "maximum"} {
+		arg := call.Common().Args[idx]
+		okk := true
+		detail := ""
+		judge := func(v ssa.Value, facts []Fact, r Range, where string) {
+			for _, f := range facts {
+				if is, val := isKK(f); is && !val {
+					return // not the KK pattern on this path
+				}
+			}
+			if r.empty || r.lo < v2 {
+				okk = false
+				detail = fmt.Sprintf("on %s the %s version for KK has range %s", where, what, r)
+			}
+		}
+		if phi, ok := arg.(*ssa.Phi); ok {
+			for i, e := range phi.Edges {
+				p := phi.Block().Preds[i]
+				judge(e, factsOnEdge(p, phi.Block()), rg.OnEdge(e, p, phi.Block()), "the edge from block "+p.Comment)
+			}
+		} else {
+			// path-sensitive: from the KK leg, every path to the call must pass an edge on which arg >= 2 is known
+			validated := func(fs []Fact) bool {
+				return !rg.eval(arg, fs, 0).empty && rg.eval(arg, fs, 0).lo >= v2
+			}
+			var kkStart []*ssa.BasicBlock
+			for _, b := range nbm.Blocks {
+				for _, sct := range b.Succs {
+					for _, f := range factsOnEdge(b, sct) {
+						if is, val := isKK(f); is && val {
+							if ef, ok := edgeFact(b, sct); ok && ef.Cond == f.Cond {
+								kkStart = append(kkStart, sct)
+							}
+						}
+					}
+				}
+			}
+			if len(kkStart) == 0 {
+				okk = false
+				detail = "no test for the KK pattern found"
+			}
+			seen := map[*ssa.BasicBlock]bool{}
+			var walk func(b *ssa.BasicBlock) bool
+			walk = func(b *ssa.BasicBlock) bool {
+				if b == call.Block() {
+					return true
+				}
+				if seen[b] {
+					return false
+				}
+				seen[b] = true
+				for _, sct := range b.Succs {
+					if validated(factsOnEdge(b, sct)) || !edgeFeasible(b, sct) {
+						continue
+					}
+					if walk(sct) {
+						return true
+					}
+				}
+				return false
+			}
+			for _, st := range kkStart {
+				if validated(factsAt(st)) {
+					continue
+				}
+				if walk(st) {
+					okk = false
+					detail = "a path from the KK leg reaches newHandshakeState without the " + what + " version having been checked against 2"
+				}
+			}
+		}
+		c.decide(okk, rule, "NewBrontideMachine|KK requires "+what+" version >= 2", instrPos(call),
+			"for the KK pattern the "+what+" handshake version handed to the handshake state is >= HandshakeVersion2",
+			"for the KK pattern (two acts, no re-check by the responder) the "+what+" version is not forced to >= 2: a rewritten act-2 version byte is accepted and the two sides disagree on the version ("+detail+")")
+	}
 }
